@@ -88,7 +88,8 @@ def gen_workload(tape):
     nops = tape.count(4, 10, "nops", (4, 5))
     for _ in range(nops):
         kinds = ["find", "find", "find", "contains", "len", "create", "delete",
-                 "find", "reset_cache", "set_coverage", "dataframe", "set_excludes"]
+                 "find", "reset_cache", "set_coverage", "dataframe", "set_excludes",
+                 "other_fileset"]
         if w["backend"] == "zip":
             kinds = ["find", "find", "contains", "len", "find", "dataframe"]
         o = {"op": tape.pick(kinds, "op")}
@@ -121,6 +122,14 @@ def gen_workload(tape):
             o["idx"] = tape.choice(20, "didx")
         elif o["op"] == "set_coverage":
             o["tcov"] = tape.pick([None, 60, 3600, 600], "ntcov")
+        elif o["op"] == "other_fileset":
+            # another FileSet object lives in the same process - a copy of this
+            # one, or a fresh one for another layout - and is configured and
+            # used through its own public interface: objects are independent
+            o["how"] = tape.pick(["copy", "fresh"], "other_how")
+            o["decoy"] = tape.choice(len(DECOYS), "other_decoy")
+            o["what"] = [tape.flag("other_ph", 2, 3), tape.flag("other_excl", 1, 2),
+                         tape.flag("other_find", 2, 3)]
         elif o["op"] == "set_excludes":
             # change the exclusions on the live object: clear them (empty list
             # or None) or set new ones
@@ -484,6 +493,33 @@ class Run:
             return
         if kind == "reset_cache":
             self.fs.reset_cache()
+            return
+        if kind == "other_fileset":
+            if w["single"]:
+                return
+            self.probe("other_fileset_object_used")
+            decoy = self.be.root + "/" + DECOYS[o["decoy"]] + \
+                ("{sat}" if F.uses_sat(self.t) else "x") + \
+                ("-{mode}" if self.t.get("mode_in_name") else "")
+            try:
+                if o["how"] == "copy":
+                    other = self.fs.copy()
+                    other.path = decoy
+                else:
+                    kw = {}
+                    fsobj = self.be.materialise()
+                    if fsobj is not None:
+                        kw["fs"] = fsobj
+                    other = F._T["FileSet"](decoy, name="OTHER", **kw)
+                if o["what"][0] and F.uses_sat(self.t):
+                    other.set_placeholders(sat="q1+")
+                if o["what"][1] and self.files:
+                    other.exclude_files([f["path"] for f in self.files])
+                    other.exclude_times([(datetime.min, datetime.max)])
+                if o["what"][2]:
+                    list(other.find(no_files_error=False))
+            except Exception:  # noqa: the other object is not under test
+                pass
             return
         if kind == "set_excludes":
             if w["single"]:
